@@ -28,7 +28,7 @@ COMPONENTS = {
 }
 ASSUMPTIONS = [
     "the recipe interpreter uses the library's U.* functions as building blocks (their scale factors are C01-C05's business); residual detection, tau choice, rerouting and constraint analysis are its own",
-    "generated programs keep the recipe unambiguous: a residual branch only uses values derived from its skip tensor, the skip tensor has no user outside the branch, ops that feed no residual addition come after the last one, additions are spelled + / += (torch.add is not generated)",
+    "generated programs keep the recipe unambiguous: a residual branch only uses values derived from its skip tensor, the skip tensor has no user outside the branch, ops that feed no residual addition come after the last one, additions in the search phases are spelled + / += (the function / method spellings are the recorded finding D21, probed in phase 'known')",
     "weight std after re-initialisation is checked to 1e-6 relative (the library divides by the sample std); biases exactly zero",
     "bitwise comparison: both sides execute the same torch kernels in the same order",
     "seeded search: a clean batch is evidence, not proof",
@@ -47,12 +47,12 @@ def phases(tier: str) -> List[Dict[str, Any]]:
         return [
             {"name": "single", "runs": 192, "heavy": True, "timeout": 240, "wall": 100},
             {"name": "interleaved", "runs": 160, "heavy": True, "timeout": 240, "wall": 100},
-            {"name": "known", "runs": 5, "explicit": True, "timeout": 240, "wall": 60},
+            {"name": "known", "runs": 8, "explicit": True, "timeout": 240, "wall": 60},
         ]
     return [
         {"name": "single", "runs": 5000, "heavy": True, "timeout": 400, "wall": 1500},
         {"name": "interleaved", "runs": 4000, "heavy": True, "timeout": 400, "wall": 1500},
-        {"name": "known", "runs": 5, "explicit": True, "timeout": 240, "wall": 120},
+        {"name": "known", "runs": 8, "explicit": True, "timeout": 240, "wall": 120},
     ]
 
 
@@ -64,7 +64,10 @@ def explicit_plans(tier: str, phase: str) -> List[Dict[str, Any]]:
             dict(base, ops=[{"op": "replace_leak", "order": "after", "helper": "my_act"}]),
             dict(base, ops=[{"op": "replace_leak", "order": "after", "helper": "my_act2"}]),
             dict(base, ops=[{"op": "nn_softmax", "dim": -1}]),
-            dict(base, ops=[{"op": "nn_softmax", "dim": 1}])]
+            dict(base, ops=[{"op": "nn_softmax", "dim": 1}]),
+            dict(base, ops=[{"op": "add_spelling", "form": "add_fn", "residual": True}]),
+            dict(base, ops=[{"op": "add_spelling", "form": "add_method", "residual": True}]),
+            dict(base, ops=[{"op": "add_spelling", "form": "add_fn", "residual": False}])]
 
 
 AVOID = ["nn_softmax"]  # shapes of known findings excluded from the search phases, probed in phase "known"
@@ -341,6 +344,36 @@ def _known(plan: Dict[str, Any], res: Dict[str, Any], log: Any, probe: Any, stat
         if d:
             raise Violation("equals_recipe", "value_mismatch", d)
         return
+    if op["op"] == "add_spelling":
+        # an addition written as torch.add(a, b) / a.add(b) instead of a + b
+        b = SpecBuilder(4)
+        x = b.inp([3, 4, 6])
+        z = b.inp([3, 4, 6])
+        form = op["form"]
+        if op["residual"]:
+            h = b.op("linear", [x], [3, 4, 6], w=b.param([6, 6], 0.4), b=None)
+            y = b.op(form, [x, h])
+        else:
+            side = b.op("linear", [z], [3, 4, 6], w=b.param([6, 6], 0.4), b=None)
+            h = b.op(form, [x, side])
+            f = b.op("linear", [h], [3, 4, 6], w=b.param([6, 6], 0.4), b=None)
+            y = b.op("add", [h, f])
+        spec = b.out(y)
+        m = tw.apply_transform_by_name(programs.ProgModule(spec), {"T": "unit_scale"})
+        ref = programs.Reference(spec, us=True)
+        inp = programs.make_inputs(spec, 3)
+        res["opseq"].append(f"add_spelling:{form}:{op['residual']}")
+        states.append("known|add_spelling|" + form)
+        try:
+            got = tw.run(m, m, tw.clone_inputs(inp), 1)
+        except Exception as e:
+            raise Violation("runs_without_error", _exc_culprit(e, ""), f"{type(e).__name__}: {str(e)[:300]}")
+        want = tw.run(lambda *xs: ref.run(m, xs), m, tw.clone_inputs(inp), 1)
+        d = tw.diff(got, want)
+        if d:
+            raise Violation("equals_recipe", "addition_not_spelled_as_operator" if form != "add" else "value_mismatch",
+                            f"{d}: {'residual' if op['residual'] else 'plain'} addition written as {form}")
+        return
     helper = op["helper"]
 
     def mk(seed: int) -> Dict[str, Any]:
@@ -388,6 +421,9 @@ def neutralise(plan: Dict[str, Any], finding: Dict[str, Any]) -> Optional[Dict[s
     c["phase"] = "known_cf"
     if finding.get("id") == "D4" and op["op"] == "replace_leak":
         c["ops"] = [dict(op, op="no_replace_in_other_module")]
+        return c
+    if finding.get("id") == "D21" and op["op"] == "add_spelling":
+        c["ops"] = [dict(op, form="add")]
         return c
     if finding.get("id") == "D10" and op["op"] == "nn_softmax":
         c["ops"] = [dict(op, op="fn_softmax")]
